@@ -83,7 +83,7 @@ static void defineAgg(Type* T)
    {
       Type* E = AT->getElementType();
       if(E->isStructTy() || E->isArrayTy()) { cty(E); defineAgg(E); }
-      os << "struct " << tyName[T] << " { " << declare(E, "a[" + std::to_string(AT->getNumElements()) + "]") << "; };\n";
+      os << "typedef " << declare(E, tyName[T] + "[" + std::to_string(AT->getNumElements()) + "]") << ";\n";
    }
    tyDefs.push_back(os.str());
    tyDone.insert(T);
@@ -115,8 +115,9 @@ static string cty(Type* T)
          else base = "A";
          string n = uniq(base + "_" + std::to_string(tyCounter++));
          tyName[T] = n;
-         fwdDecls.push_back("struct " + n + ";\n");
+         if(T->isStructTy()) fwdDecls.push_back("struct " + n + ";\n");
       }
+      if(T->isArrayTy()) { defineAgg(T); return tyName[T]; }   // arrays are typedefs (must be complete before use)
       return "struct " + tyName[T];
    }
    if(T->isFunctionTy()) return "void";
@@ -175,15 +176,15 @@ static string constInit(const Constant* K, FnCtx* C)
    }
    if(auto* CA = dyn_cast<ConstantArray>(K))
    {
-      string s = "{{";
+      string s = "{";
       for(unsigned i = 0; i < CA->getNumOperands(); i++) s += (i ? ", " : "") + constInit(CA->getOperand(i), C);
-      return s + "}}";
+      return s + "}";
    }
    if(auto* CD = dyn_cast<ConstantDataArray>(K))
    {
-      string s = "{{";
+      string s = "{";
       for(unsigned i = 0; i < CD->getNumElements(); i++) s += (i ? ", " : "") + constInit(CD->getElementAsConstant(i), C);
-      return s + "}}";
+      return s + "}";
    }
    return val(K, C);
 }
@@ -219,7 +220,7 @@ static string gepExpr(Type* srcTy, const Value* ptr, ArrayRef<const Value*> idx,
       }
       else if(auto* AT = dyn_cast<ArrayType>(cur))
       {
-         e = "(&" + e + "->a[" + iv + "])";
+         e = "(&(*" + e + ")[" + iv + "])";
          cur = AT->getElementType();
       }
       else { errs() << "gep: bad type\n"; }
@@ -332,7 +333,7 @@ static string sextFrom(Type* From, const string& e, Type* To)
 static std::map<string, string> knownExternal = {
    {"malloc", "malloc"}, {"free", "free"}, {"realloc", "realloc"}, {"calloc", "calloc"},
    {"strlen", "strlen"}, {"strcmp", "strcmp"}, {"strncmp", "strncmp"}, {"strcpy", "strcpy"}, {"strncpy", "strncpy"},
-   {"memcmp", "memcmp"}, {"strchr", "strchr"}, {"strrchr", "strrchr"}, {"strcat", "strcat"},
+   {"memcmp", "memcmp"}, {"memchr", "memchr"}, {"strchr", "strchr"}, {"strrchr", "strrchr"}, {"strcat", "strcat"},
    {"ldexp", "vp_ldexp"}, {"frexp", "vp_frexp"}, {"fabs", "fabs"}, {"floor", "floor"}, {"ceil", "ceil"}, {"sqrt", "sqrt"},
    {"atoi", "atoi"}, {"atof", "vp_atof"}, {"isspace", "isspace"}, {"isdigit", "isdigit"}, {"tolower", "tolower"}, {"toupper", "toupper"},
    {"abort", "vp_abort"}, {"_ZSt9terminatev", "vp_abort"},
@@ -448,9 +449,14 @@ static void emitCall(const CallBase& CB, FnCtx& C, const Function& F)
          if(!CB.getType()->isVoidTy() && !CB.getType()->isEmptyTy()) os << "  " << lhs << zeroOf(CB.getType()) << ";\n";
          return;
       }
-      if(n.startswith("llvm.memcpy")) { os << "  memcpy(" << arg(0) << ", " << arg(1) << ", " << arg(2) << ");\n"; return; }
-      if(n.startswith("llvm.memmove")) { os << "  memmove(" << arg(0) << ", " << arg(1) << ", " << arg(2) << ");\n"; return; }
-      if(n.startswith("llvm.memset")) { os << "  memset(" << arg(0) << ", " << arg(1) << ", " << arg(2) << ");\n"; return; }
+      // variable-length copies inside libstdc++ code (char_traits::copy/move/assign on short strings): byte loops, because
+      // CBMC's built-in memcpy/memmove with a symbolic length builds array-theory formulas that exhaust memory
+      bool byteLoop = CB.arg_size() > 2 && !isa<ConstantInt>(CB.getArgOperand(2)) && dem(F).rfind("std::", 0) == 0;
+      const char* sfx = byteLoop ? "vp_" : "";
+      const char* sfx2 = byteLoop ? "_bytes" : "";
+      if(n.startswith("llvm.memcpy")) { os << "  " << sfx << "memcpy" << sfx2 << "(" << arg(0) << ", " << arg(1) << ", " << arg(2) << ");\n"; return; }
+      if(n.startswith("llvm.memmove")) { os << "  " << sfx << "memmove" << sfx2 << "(" << arg(0) << ", " << arg(1) << ", " << arg(2) << ");\n"; return; }
+      if(n.startswith("llvm.memset")) { os << "  " << sfx << "memset" << sfx2 << "(" << arg(0) << ", " << arg(1) << ", " << arg(2) << ");\n"; return; }
       if(n.startswith("llvm.fabs")) { os << "  " << lhs << "fabs(" << arg(0) << ");\n"; return; }
       if(n.startswith("llvm.floor")) { os << "  " << lhs << "floor(" << arg(0) << ");\n"; return; }
       if(n.startswith("llvm.ceil")) { os << "  " << lhs << "ceil(" << arg(0) << ");\n"; return; }
@@ -701,7 +707,7 @@ static void emitFunction(const Function& F, raw_ostream& out)
             for(unsigned ix : EV->indices())
             {
                if(auto* ST = dyn_cast<StructType>(cur)) { e += ".f" + std::to_string(ix); cur = ST->getElementType(ix); }
-               else { e += ".a[" + std::to_string(ix) + "]"; cur = cast<ArrayType>(cur)->getElementType(); }
+               else { e += "[" + std::to_string(ix) + "]"; cur = cast<ArrayType>(cur)->getElementType(); }
             }
             os << "  " << n << " = " << e << ";\n"; break;
          }
@@ -713,7 +719,7 @@ static void emitFunction(const Function& F, raw_ostream& out)
             for(unsigned ix : IV->indices())
             {
                if(auto* ST = dyn_cast<StructType>(cur)) { e += ".f" + std::to_string(ix); cur = ST->getElementType(ix); }
-               else { e += ".a[" + std::to_string(ix) + "]"; cur = cast<ArrayType>(cur)->getElementType(); }
+               else { e += "[" + std::to_string(ix) + "]"; cur = cast<ArrayType>(cur)->getElementType(); }
             }
             os << "  " << e << " = " << op(1) << ";\n"; break;
          }
@@ -911,6 +917,8 @@ int main(int argc, char** argv)
    {
       if(F.isIntrinsic()) continue;
       string nm = F.getName().str();
+      if(F.isDeclaration() && nm.rfind("_ZSt", 0) == 0 && nm.find("__throw_") != string::npos && !knownExternal.count(nm))
+         knownExternal[nm] = F.arg_size() == 0 ? "vp_throw_std0" : "vp_throw_std";   // libstdc++ throw helpers: an exception of unknown std type
       auto it = knownExternal.find(nm);
       if(F.isDeclaration() && it != knownExternal.end()) gName[&F] = it->second;
       else if(isHarnessName(nm)) { gName[&F] = nm; usedNames.insert(nm); }
